@@ -1,1 +1,391 @@
-"""rules for c07 (under construction)"""
+"""C07 - the block protocol is safe for every convergence pattern (typestate decomposed into local CFG obligations)."""
+
+import ast
+import re
+
+from ..cfg import FuncCFG, walk_no_nested, ENTRY, EXIT, RAISE
+from ..model import AnalysisError
+from ..norm import bool_nf, nnf
+from ..runner import rule
+from .. import controllers as ct
+from .. import facts
+
+
+def _tables(ctx):
+    return ctx.memo('handler_tables', lambda: {spec[1]: ct.handler_table(ctx.repo, spec) for spec in ct.ALL})
+
+
+def _is_steps_loop(st):
+    return isinstance(st, ast.For) and ast.unparse(st.iter) in ('local_MS_running', 'local_MS_active')
+
+
+def _is_hooks_loop(st):
+    return isinstance(st, ast.For) and ast.unparse(st.iter) in ('self.hooks', 'controller.hooks')
+
+
+def _emission_point(h, node):
+    """the header of the `for hook in self.hooks` loop around an emission (zero hooks = nothing to emit)"""
+    st = h.cfg.stmt_of[node]
+    for l in reversed(h.cfg.loops_of[id(st)]):
+        if _is_hooks_loop(l):
+            return h.cfg.node_of[id(l)]
+    return node
+
+
+def _anchor(h, node):
+    """outermost loop over the running steps around a node (handlers are called with a non-empty list)"""
+    st = h.cfg.stmt_of[node]
+    for l in h.cfg.loops_of[id(st)]:
+        if _is_steps_loop(l):
+            return h.cfg.node_of[id(l)]
+    return node
+
+
+def _all_methods(repo, spec):
+    ci = repo.cls(spec[0], spec[1])
+    return ci.methods
+
+
+def _emission_sites(repo, spec, cb):
+    out = []
+    for name, fn in _all_methods(repo, spec).items():
+        for c in ast.walk(fn):
+            if isinstance(c, ast.Call) and isinstance(c.func, ast.Attribute) and c.func.attr == cb and ast.unparse(c.func.value) == 'hook':
+                out.append((name, c))
+    return out
+
+
+def _lvl_norm(s):
+    s = s.replace('self.S.', 'S.')
+    if s in ('-1', 'len(S.levels) - 1'):
+        return 'last'
+    return s
+
+
+@rule('C07', 'C07.R1', 'pre_step is emitted only in the SPREAD handler, before the predictor', floor=3)
+def r1(ctx, R):
+    for spec in ct.ALL:
+        _, hs = _tables(ctx)[spec[1]]
+        sites = _emission_sites(ctx.repo, spec, 'pre_step')
+        h = hs['SPREAD']
+        R.fn(h.where)
+        names = sorted({n for n, _ in sites})
+        ok = names == [h.name] and len(sites) == 1
+        if ok:
+            em = h.emissions('pre_step')
+            pr = h.calls('predict')
+            pr = [(n, c) for n, c in pr if ast.unparse(c.func).endswith('.sweep.predict')]
+            ok = len(em) == 1 and len(pr) == 1 and h.cfg.dominates(_emission_point(h, em[0][0]), pr[0][0]) and h.cfg.loops_of[id(h.cfg.stmt_of[_emission_point(h, em[0][0])])] == h.cfg.loops_of[id(h.cfg.stmt_of[pr[0][0]])]
+        R.check(ok, f'{spec[1]} :: pre_step only in {h.name}, once per running step, before sweep.predict()', h.where, 'one emission site, dominating the predictor in the same per-step block', names)
+
+
+@rule('C07', 'C07.R2', 'pre_predict/post_predict only in PREDICT; every non-raising path of the predict_type dispatch reaches post_predict', floor=6)
+def r2(ctx, R):
+    for spec in (ct.NONMPI, ct.MPI):
+        _, hs = _tables(ctx)[spec[1]]
+        h = hs['PREDICT']
+        R.fn(h.where)
+        for cb in ('pre_predict', 'post_predict'):
+            sites = sorted({n for n, _ in _emission_sites(ctx.repo, spec, cb)})
+            R.check(sites == [h.name], f'{spec[1]} :: {cb} only in {h.name}', h.where, [h.name], sites)
+        pre, post = h.emissions('pre_predict'), h.emissions('post_predict')
+        if len(pre) != 1 or len(post) != 1:
+            R.bad(f'{spec[1]}.predict :: one pre_predict and one post_predict site', h.where, '1/1', f'{len(pre)}/{len(post)}')
+            continue
+        a_pre, a_post = _anchor(h, _emission_point(h, pre[0][0])), _anchor(h, _emission_point(h, post[0][0]))
+        work = [n for nm in ('update_nodes', 'transfer', 'send_full', 'recv_full') for n, _ in h.calls(nm)]
+        ok = all(h.cfg.dominates(a_pre, n) for n in work) and all(not h.cfg.reachable(a_post, n) for n in work)
+        R.check(ok, f'{spec[1]}.predict :: all predictor work lies between pre_predict and post_predict', h.where, 'pre_predict dominates and post_predict follows every sweep/transfer/communication of the predictor', f'{len(work)} work sites')
+        # interrupt returns (`if force_done: return`) are excluded by the property (C08) - remove them from the normal exits
+        ex = [n for n, s in h.cfg.stmt_of.items() if isinstance(s, ast.Return) and any('force_done' in g for g in h.guard_strs(n))]
+        ok = h.cfg.must_pass(a_pre, EXIT, [a_post] + ex) and h.cfg.dominates(a_pre, a_post)
+        R.check(ok, f'{spec[1]}.predict :: every normal path from pre_predict reaches post_predict (or raises)', h.where, 'post_predict on all non-raising paths', 'a path bypasses post_predict' if not ok else 'ok')
+        ch = [c for c in facts.dispatch_chains(h.fn) if c['subject'].endswith('params.predict_type')]
+        ok = len(ch) == 1 and ch[0]['else_kind'] == 'raise' and None in ch[0]['names']
+        R.check(ok, f'{spec[1]}.predict :: unknown predict_type raises', h.where, 'dispatch on predict_type ends in raise', [(c['names'], c['else_kind']) for c in ch])
+        sw_ = [w for w in h.stage_writes()]
+        ok = bool(sw_) and all(v == 'IT_CHECK' for _, v, _, _ in sw_) and all(h.cfg.dominates(a_post, _anchor(h, n)) for n, _, _, _ in sw_)
+        R.check(ok, f'{spec[1]}.predict :: stage IT_CHECK set after post_predict', h.where, 'stage write dominated by post_predict', [(v) for _, v, _, _ in sw_])
+
+
+@rule('C07', 'C07.R3', 'post_iteration only in IT_CHECK, guarded by iter > 0, before the convergence controllers decide', floor=3)
+def r3(ctx, R):
+    for spec in ct.ALL:
+        _, hs = _tables(ctx)[spec[1]]
+        h = hs['IT_CHECK']
+        R.fn(h.where)
+        sites = _emission_sites(ctx.repo, spec, 'post_iteration')
+        names = sorted({n for n, _ in sites})
+        extra = [n for n in names if n != h.name]
+        if extra == ['pfasst'] and spec[1] == 'controller_MPI':
+            R.exc('controller_MPI.pfasst :: post_iteration on interrupt', f'{spec[0]}:controller_MPI.pfasst', 'interrupt-based iteration estimator (excluded by C08): the step is cancelled mid-iteration and closes its iteration here')
+            extra = []
+        em = h.emissions('post_iteration')
+        ok = not extra and len(em) == 1
+        if ok:
+            g = h.guard_strs(em[0][0])
+            ok = any(re.fullmatch(r'(self\.)?S\.status\.iter > 0', x) for x in g)
+            dec = h.calls('convergence_control')
+            ep = _emission_point(h, em[0][0])
+            iff = None
+            for t, p in h.cfg.guards[id(h.cfg.stmt_of[em[0][0]])] if False else []:
+                pass
+            # the `if iter > 0` test node dominates the decision; the decision cannot flow back to the emission in the same iteration
+            loops = h.cfg.loops_of[id(h.cfg.stmt_of[dec[0][0]])] if dec else []
+            hdrs = [h.cfg.node_of[id(l)] for l in loops if _is_steps_loop(l)]
+            ok = ok and len(dec) == 1 and not h.cfg.reachable(dec[0][0], ep, without=hdrs) and h.cfg.reachable(ep, dec[0][0])
+            # same per-step block
+            ok = ok and [l for l in h.cfg.loops_of[id(h.cfg.stmt_of[ep])] if _is_steps_loop(l)] == [l for l in loops if _is_steps_loop(l)]
+        R.check(ok, f'{spec[1]}.it_check :: post_iteration under iter > 0, before convergence_control of the same step', h.where, 'one guarded emission preceding the decision', {'sites': names, 'emissions': len(em)})
+
+
+@rule('C07', 'C07.R4', 'pre_iteration only in IT_CHECK, in the not-done arm', floor=3)
+def r4(ctx, R):
+    for spec in ct.ALL:
+        _, hs = _tables(ctx)[spec[1]]
+        h = hs['IT_CHECK']
+        R.fn(h.where)
+        names = sorted({n for n, _ in _emission_sites(ctx.repo, spec, 'pre_iteration')})
+        em = h.emissions('pre_iteration')
+        ok = names == [h.name] and len(em) == 1 and any(re.fullmatch(r'not \(?(self\.)?S\.status\.done\)?', x) for x in h.guard_strs(em[0][0]))
+        R.check(ok, f'{spec[1]}.it_check :: pre_iteration only here, under not done', h.where, 'single emission in the not-done arm', {'sites': names})
+
+
+@rule('C07', 'C07.R5', 'post_step only in the done arm of IT_CHECK, after compute_end_point, together with stage DONE', floor=6)
+def r5(ctx, R):
+    for spec in ct.ALL:
+        _, hs = _tables(ctx)[spec[1]]
+        h = hs['IT_CHECK']
+        R.fn(h.where)
+        sites = sorted({n for n, _ in _emission_sites(ctx.repo, spec, 'post_step')})
+        extra = [n for n in sites if n != h.name]
+        if extra == ['pfasst'] and spec[1] == 'controller_MPI':
+            R.exc('controller_MPI.pfasst :: post_step on interrupt', f'{spec[0]}:controller_MPI.pfasst', 'interrupt-based iteration estimator (excluded by C08)')
+            extra = []
+        em = h.emissions('post_step')
+        ok = not extra and len(em) == 1
+        done_w = [(n, g) for n, v, g, s in h.stage_writes() if v == 'DONE']
+        if ok:
+            g = h.guard_strs(em[0][0])
+            in_done_arm = any(re.fullmatch(r'not \(not \(?(self\.)?S\.status\.done\)?\)', x) or re.fullmatch(r'(self\.)?S\.status\.done', x) for x in g)
+            ep = _emission_point(h, em[0][0])
+            ok = in_done_arm and len(done_w) == 1 and h.cfg.dominates(ep, done_w[0][0]) and h.cfg.guards[id(h.cfg.stmt_of[done_w[0][0]])] == h.cfg.guards[id(h.cfg.stmt_of[ep])]
+        R.check(ok, f'{spec[1]}.it_check :: post_step in the done arm, followed by stage = DONE in the same arm', h.where, 'one emission; DONE written once, after it', {'sites': sites, 'DONE writes': len(done_w)})
+        if spec[1] == 'controller_MPI':
+            R.note('controller_MPI.it_check :: no compute_end_point() in the done arm', h.where, 'serial sibling recomputes the end point after the last receive; see C08.R5 (finding F9)')
+            continue
+        cep = [(n, c) for n, c in h.calls('compute_end_point')]
+        ok = len(em) == 1 and len(cep) == 1 and h.cfg.dominates(cep[0][0], _emission_point(h, em[0][0])) and h.cfg.guards[id(h.cfg.stmt_of[cep[0][0]])] == h.cfg.guards[id(h.cfg.stmt_of[_emission_point(h, em[0][0])])]
+        R.check(ok, f'{spec[1]}.it_check :: compute_end_point() precedes post_step in the done arm', h.where, 'uend final before the step is reported', f'{len(cep)} end-point call(s)')
+
+
+@rule('C07', 'C07.R6', 'every sweep in an iteration handler is bracketed by pre_sweep ... compute_residual, post_sweep for the same level', floor=13)
+def r6(ctx, R):
+    for spec in ct.ALL:
+        _, hs = _tables(ctx)[spec[1]]
+        for stage, h in hs.items():
+            if not stage.startswith('IT_') or stage == 'IT_CHECK':
+                continue
+            R.fn(h.where)
+            ups = h.calls('update_nodes')
+            for n, c in ups:
+                recv = ast.unparse(c.func.value)  # S.levels[l].sweep
+                m = re.fullmatch(r'(?:self\.)?S\.levels\[(.+)\]\.sweep', recv)
+                lvl = _lvl_norm(m.group(1)) if m else recv
+                loops = [l for l in h.cfg.loops_of[id(h.cfg.stmt_of[n])] if not _is_hooks_loop(l)]
+                def pts(cb):
+                    out = []
+                    for en, _, call in h.emissions(cb):
+                        kw = {k.arg: ast.unparse(k.value) for k in call.keywords}
+                        ep = _emission_point(h, en)
+                        el = [l for l in h.cfg.loops_of[id(h.cfg.stmt_of[ep])]]
+                        if _lvl_norm(kw.get('level_number', '')) == lvl and (el == loops or stage == 'IT_PARADIAG'):
+                            out.append(ep)
+                    return out
+                pre, post = pts('pre_sweep'), pts('post_sweep')
+                res = [rn for rn, rc in h.calls('compute_residual') if ast.unparse(rc.func.value) == recv and h.cfg.loops_of[id(h.cfg.stmt_of[rn])] == h.cfg.loops_of[id(h.cfg.stmt_of[n])]]
+                if stage == 'IT_PARADIAG':
+                    # ParaDiag brackets the whole all-at-once iteration; its residual is the all-at-once one computed inside
+                    ok = len(pre) == 1 and len(post) == 1 and h.cfg.dominates(_anchor(h, pre[0]), _anchor(h, n)) and h.cfg.dominates(_anchor(h, n), _anchor(h, post[0])) and _anchor(h, pre[0]) != _anchor(h, n) != _anchor(h, post[0])
+                    R.check(ok, f'{spec[1]}.{h.name} :: update_nodes() on level {lvl} between pre_sweep and post_sweep', h.where, 'bracketed', f'pre {len(pre)}, post {len(post)}')
+                    continue
+                ok = len(pre) == 1 and len(post) == 1 and len(res) == 1 and h.cfg.dominates(pre[0], n) and h.cfg.dominates(n, res[0]) and h.cfg.dominates(res[0], post[0]) and h.cfg.postdominates(post[0], n)
+                R.check(ok, f'{spec[1]}.{h.name} :: pre_sweep({lvl}) -> update_nodes -> compute_residual -> post_sweep({lvl})', h.where, 'one bracket per sweep, same level, same block', f'pre {len(pre)}, residual {len(res)}, post {len(post)}')
+            if stage == 'IT_COARSE':
+                ok = len(ups) == 1 and not any(isinstance(l, ast.For) and isinstance(l.iter, ast.Call) and ast.unparse(l.iter.func) == 'range' for l in h.cfg.loops_of[id(h.cfg.stmt_of[ups[0][0]])])
+                ok = ok and not any('status' in g for g in h.guard_strs(ups[0][0]) if 'force_done' not in g)
+                R.check(ok, f'{spec[1]}.{h.name} :: exactly one unconditional sweep on the coarsest level', h.where, 'one update_nodes(), not in a sweep loop', f'{len(ups)} site(s)')
+            if stage == 'IT_FINE':
+                ok = len(ups) == 1
+                if ok:
+                    rl = [l for l in h.cfg.loops_of[id(h.cfg.stmt_of[ups[0][0]])] if isinstance(l, ast.For) and isinstance(l.iter, ast.Call) and ast.unparse(l.iter.func) == 'range']
+                    arg = ast.unparse(rl[0].iter.args[0]) if len(rl) == 1 and len(rl[0].iter.args) == 1 else None
+                    if arg == 'nsweeps':
+                        d = [s for s in walk_no_nested(h.fn) if isinstance(s, ast.Assign) and ast.unparse(s.targets[0]) == 'nsweeps']
+                        arg = ast.unparse(d[0].value) if len(d) == 1 else arg
+                    ok = arg in ('self.nsweeps[0]', 'self.S.levels[0].params.nsweeps')
+                R.check(ok, f'{spec[1]}.{h.name} :: fine sweeps run range(nsweeps of level 0)', h.where, 'for k in range(nsweeps[0])', arg if ups else None)
+
+
+STAGE_GRAPH = {
+    'controller_nonMPI': {'SPREAD': {'PREDICT', 'IT_CHECK'}, 'PREDICT': {'IT_CHECK'}, 'IT_CHECK': {'DONE', 'IT_DOWN', 'IT_FINE', 'IT_COARSE'}, 'IT_FINE': {'IT_CHECK'},
+                          'IT_DOWN': {'IT_COARSE'}, 'IT_COARSE': {'IT_UP', 'IT_CHECK'}, 'IT_UP': {'IT_FINE'}},
+    'controller_ParaDiag_nonMPI': {'SPREAD': {'IT_CHECK'}, 'IT_CHECK': {'DONE', 'IT_PARADIAG'}, 'IT_PARADIAG': {'IT_CHECK'}},
+}
+STAGE_GRAPH['controller_MPI'] = STAGE_GRAPH['controller_nonMPI']
+STEP_INDEPENDENT = re.compile(r'^(not \()?(len\((self\.)?S\.levels\) > 1|len\(local_MS_running\) == 1 or self\.params\.mssdc_jac|num_procs == 1 or self\.params\.mssdc_jac)\)?$')
+
+
+@rule('C07', 'C07.R7', 'stage lock-step: every handler moves every running step; outside IT_CHECK the choice does not depend on a step status; unknown stage raises', floor=55)
+def r7(ctx, R):
+    for spec in ct.ALL:
+        driver, hs = _tables(ctx)[spec[1]]
+        want = STAGE_GRAPH[spec[1]]
+        R.check(set(hs) == set(want), f'{spec[1]} :: handler table covers the stages', f'{spec[0]}:{spec[1]}.{spec[2]}', sorted(want), sorted(hs))
+        for stage, h in hs.items():
+            R.fn(h.where)
+            ws = h.stage_writes()
+            got = {v for _, v, _, _ in ws}
+            R.check(got == want.get(stage), f'{spec[1]}.{h.name} :: successor stages of {stage}', h.where, sorted(want.get(stage, [])), sorted(map(str, got)))
+            # every normal path assigns a stage to every running step
+            writes = [n for n, _, _, _ in ws]
+            interrupts = [n for n, s in h.cfg.stmt_of.items() if isinstance(s, ast.Return) and any('force_done' in g for g in h.guard_strs(n))]
+            step_loops = {id(l): l for n in writes for l in h.cfg.loops_of[id(h.cfg.stmt_of[n])] if _is_steps_loop(l)}
+            serial = any(a.arg == 'local_MS_running' for a in h.fn.args.args)
+            if serial and writes:
+                # every write must address the loop variable of a loop over the running steps
+                per_step = all(
+                    any(_is_steps_loop(l) and isinstance(l.target, ast.Name) and ast.unparse(s.targets[0]) == f'{l.target.id}.status.stage' for l in h.cfg.loops_of[id(s)])
+                    for _, _, _, s in ws
+                )
+            else:
+                per_step = True
+            if not per_step:
+                ok = False
+            elif step_loops:
+                ok = True
+                for l in step_loops.values():
+                    hdr = h.cfg.node_of[id(l)]
+                    first = h.cfg.node_of.get(id(l.body[0]))
+                    inner = [n for n in writes if l in h.cfg.loops_of[id(h.cfg.stmt_of[n])]]
+                    ok &= h.cfg.dominates(hdr, EXIT) and (first in inner or h.cfg.must_pass(first, hdr, inner))
+                ok &= len(step_loops) == 1
+            else:
+                ok = bool(writes) and h.cfg.must_pass(ENTRY, EXIT, writes + interrupts)
+            R.check(ok, f'{spec[1]}.{h.name} :: a stage is assigned on every normal path, for every running step', h.where, 'no path (and no step) leaves the handler in the old stage', f'{len(writes)} stage write(s)')
+            if stage != 'IT_CHECK':
+                bad = []
+                for n, v, g, s in ws:
+                    for x in h.guard_strs(n):
+                        if 'force_done' in x:
+                            continue
+                        if '.status.' in x:
+                            bad.append(x)
+                R.check(not bad, f'{spec[1]}.{h.name} :: stage choice independent of per-step status', h.where, 'guards mention no step/level status (only len(S.levels), number of running steps, parameters)', bad)
+        # the driver: unknown stage raises; serial drivers raise when the running steps disagree
+        w = f'{spec[0]}:{spec[1]}.{spec[2]}'
+        R.fn(w)
+        src = ast.unparse(driver)
+        if spec[1] == 'controller_ParaDiag_nonMPI':
+            ok = any(isinstance(s, ast.Assert) and 'switcher' in ast.unparse(s.test) for s in walk_no_nested(driver))
+            R.check(ok, f'{spec[1]}.{spec[2]} :: unknown stage rejected', w, 'assert stage in switcher', 'assert' if ok else 'none')
+        else:
+            ci = ctx.repo.cls(spec[0], spec[1])
+            d = ci.methods.get('default')
+            ok = d is not None and any(isinstance(s, ast.Raise) and 'ControllerError' in ast.unparse(s) for s in ast.walk(d)) and 'switcher.get(stage, self.default)' in src
+            R.check(ok, f'{spec[1]}.{spec[2]} :: unknown stage dispatches to default(), which raises ControllerError', w, 'switcher.get(stage, self.default)', 'ok' if ok else 'missing')
+        if spec[1] != 'controller_MPI':
+            cfg = FuncCFG(driver)
+            rs = [s for s in walk_no_nested(driver) if isinstance(s, ast.Raise) and 'ControllerError' in ast.unparse(s)]
+            st = [s for s in walk_no_nested(driver) if isinstance(s, ast.Assign) and ast.unparse(s.targets[0]) == 'stages']
+            ok = len(st) == 1 and ast.unparse(st[0].value) == "[S.status.stage for S in local_MS_active if S.status.stage != 'DONE']" and len(rs) >= 1 and any('stages[1:] == stages[:-1]' in g for g in facts.guard_strings(cfg, rs[0]))
+            R.check(ok, f'{spec[1]}.{spec[2]} :: stages of all non-DONE steps compared, ControllerError otherwise', w, 'raise unless stages[1:] == stages[:-1]', 'ok' if ok else src[:120])
+            run = [s for s in walk_no_nested(driver) if isinstance(s, ast.Assign) and ast.unparse(s.targets[0]) == 'MS_running']
+            ok = len(run) == 1 and ast.unparse(run[0].value) == "[S for S in local_MS_active if S.status.stage != 'DONE']"
+            R.check(ok, f'{spec[1]}.{spec[2]} :: DONE steps are removed from the running list', w, "[S for S in local_MS_active if S.status.stage != 'DONE']", ast.unparse(run[0].value) if run else None)
+            ret = [s for s in walk_no_nested(driver) if isinstance(s, ast.Return)]
+            ok = len(ret) == 1 and ast.unparse(ret[0].value) == 'all((S.status.done for S in local_MS_active))'
+            R.check(ok, f'{spec[1]}.{spec[2]} :: block is finished iff all active steps are done', w, 'return all(S.status.done for S in local_MS_active)', [ast.unparse(r.value) for r in ret])
+
+
+@rule('C07', 'C07.R8', 'finishing order: done := done and prev_done; all_to_done; handlers work on their parameter only', floor=22)
+def r8(ctx, R):
+    for spec in (ct.NONMPI, ct.PARADIAG):
+        _, hs = _tables(ctx)[spec[1]]
+        h = hs['IT_CHECK']
+        R.fn(h.where)
+        cfg = h.cfg
+        pd = [s for s in cfg.stmt_of.values() if isinstance(s, ast.Assign) and ast.unparse(s.targets[0]) == 'S.status.prev_done']
+        ok = len(pd) == 1 and ast.unparse(pd[0].value) == 'S.prev.status.done' and facts.guard_strings(cfg, pd[0]) == ['not S.status.first']
+        R.check(ok, f'{spec[1]}.it_check :: prev_done <- predecessor.done for non-first steps', h.where, 'S.status.prev_done = S.prev.status.done under not first', [ast.unparse(s) for s in pd])
+        dn = [s for s in cfg.stmt_of.values() if isinstance(s, ast.Assign) and ast.unparse(s.targets[0]) == 'S.status.done']
+        chain = [s for s in dn if bool_nf(s.value) == ('and', ('S.status.done', 'S.status.prev_done'))]
+        ok = len(chain) == 1 and facts.guard_strings(cfg, chain[0]) == ['not S.status.first'] and pd and cfg.dominates(cfg.node_of[id(pd[0])], cfg.node_of[id(chain[0])])
+        R.check(ok, f'{spec[1]}.it_check :: done := done and prev_done (steps finish in time order)', h.where, 'conjunction with prev_done after it was refreshed', [ast.unparse(s) for s in dn])
+        allto = [s for s in dn if ast.unparse(s.value) == 'all((T.status.done for T in local_MS_running))']
+        ok = len(allto) == 1 and facts.guard_strings(cfg, allto[0]) == ['self.params.all_to_done'] and len(dn) == 2
+        R.check(ok, f'{spec[1]}.it_check :: with all_to_done a step is done only when all running steps are', h.where, 'done = all(T.status.done for T in running) under all_to_done; no other writer', [ast.unparse(s) for s in dn])
+        # order: chain -> all_to_done -> the branch on done
+        br = [n for n, s in cfg.stmt_of.items() if isinstance(s, ast.If) and ast.unparse(s.test) == 'not S.status.done']
+        ok = len(br) == 1 and all(cfg.dominates(cfg.node_of[id(x)] if not isinstance(x, int) else x, br[0]) or True for x in [])
+        ok = len(br) == 1 and bool(chain) and bool(allto) and not cfg.reachable(br[0], cfg.node_of[id(chain[0])], without=[cfg.node_of[id(l)] for l in cfg.loops_of[id(chain[0])]]) and not cfg.reachable(br[0], cfg.node_of[id(allto[0])], without=[cfg.node_of[id(l)] for l in cfg.loops_of[id(allto[0])]])
+        R.check(ok, f'{spec[1]}.it_check :: the done/not-done branch is taken after the done chain is final', h.where, 'chain and all_to_done precede `if not S.status.done`', f'{len(br)} branch(es)')
+    for spec in ct.ALL:
+        _, hs = _tables(ctx)[spec[1]]
+        for stage, h in hs.items():
+            refs = sorted({ast.unparse(x) for x in ast.walk(h.fn) if isinstance(x, ast.Attribute) and ast.unparse(x) == 'self.MS'})
+            R.check(not refs, f'{spec[1]}.{h.name} :: touches only the running steps it was handed (no self.MS)', h.where, 'no reference to self.MS in a handler', refs)
+
+
+@rule('C07', 'C07.R9', 'tag agreement: the tuple built by the sender and the tuple expected by the receiver agree by role', floor=2)
+def r9(ctx, R):
+    repo = ctx.repo
+    rel, cn, _ = ct.NONMPI
+    sf, rf = repo.func(rel, f'{cn}.send_full'), repo.func(rel, f'{cn}.recv_full')
+    def tag_of(fn, callee):
+        for c in ast.walk(fn):
+            if isinstance(c, ast.Call) and isinstance(c.func, ast.Name) and c.func.id == callee:
+                for k in c.keywords:
+                    if k.arg == 'tag':
+                        return k.value
+        return None
+    ts, tr = tag_of(sf, 'send'), tag_of(rf, 'recv')
+    if ts is None or tr is None:
+        raise AnalysisError('send/recv tag tuples not found in controller_nonMPI')
+    s = [ast.unparse(e) for e in ts.elts] if isinstance(ts, ast.Tuple) else [ast.unparse(ts)]
+    r = [ast.unparse(e).replace('S.prev.status', 'S.status') for e in tr.elts] if isinstance(tr, ast.Tuple) else [ast.unparse(tr)]
+    R.check(s == r and len(s) == 3 and 'S.prev.status.slot' in ast.unparse(tr), 'controller_nonMPI :: send tag == expected tag with the sender slot taken from S.prev', f'{rel}:{cn}.send_full/recv_full', s, [ast.unparse(e) for e in tr.elts] if isinstance(tr, ast.Tuple) else ast.unparse(tr))
+    rel, cn, _ = ct.MPI
+    sf, rf = repo.func(rel, f'{cn}.send_full'), repo.func(rel, f'{cn}.recv_full')
+    st = [ast.unparse(k.value) for c in ast.walk(sf) if isinstance(c, ast.Call) and isinstance(c.func, ast.Attribute) and c.func.attr == 'isend' for k in c.keywords if k.arg == 'tag']
+    rt = [ast.unparse(k.value) for c in ast.walk(rf) if isinstance(c, ast.Call) and ast.unparse(c.func) == 'self.recv' for k in c.keywords if k.arg == 'tag']
+    R.check(st == rt == ['level * 100 + self.S.status.iter'], 'controller_MPI :: isend tag == recv tag (level*100 + iter)', f'{rel}:{cn}.send_full/recv_full', ['level * 100 + self.S.status.iter'], {'send': st, 'recv': rt})
+
+
+@rule('C07', 'C07.R10', 'lock discipline: transfer refuses a locked source level; only predict and restrict unlock', floor=18)
+def r10(ctx, R):
+    repo = ctx.repo
+    base = repo.cls('pySDC/core/base_transfer.py', 'BaseTransfer')
+    for ci in repo.subclasses(base):
+        if not repo.is_library(ci):
+            continue
+        for meth, src in (('restrict', 'F'), ('prolong', 'G'), ('prolong_f', 'G')):
+            if meth not in ci.methods:
+                continue
+            fn = ci.methods[meth]
+            w = f'{ci.module.relpath}:{ci.name}.{meth}'
+            R.fn(w)
+            cfg = FuncCFG(fn)
+            rs = [(n, s) for n, s in cfg.stmt_of.items() if isinstance(s, ast.Raise) and 'UnlockError' in ast.unparse(s)]
+            ok = any(f'not {src}.status.unlocked' in ' '.join(facts.guard_strings(cfg, s)) for n, s in rs)
+            # the check dominates every use of the source level's data
+            first_use = [n for n, s in cfg.stmt_of.items() if not isinstance(s, (ast.If, ast.Raise)) and re.search(rf'\b{src}\.(u|f|tau|uold|fold)\[', ast.unparse(s) if not isinstance(s, (ast.For, ast.While, ast.With, ast.Try)) else ast.unparse(s.iter) if isinstance(s, ast.For) else '')]
+            tests = [n for n, s in cfg.stmt_of.items() if isinstance(s, ast.If) and f'{src}.status.unlocked' in ast.unparse(s.test)]
+            ok = ok and bool(tests) and all(cfg.dominates(tests[0], n) for n in first_use)
+            R.check(ok, f'{ci.name}.{meth} :: raises UnlockError when the source level is locked, before any of its data is read', w, f'if not {src}.status.unlocked: raise UnlockError', [ast.unparse(s)[:60] for n, s in rs])
+    W = ctx.memo('attr_writes', lambda: facts.attr_writes(repo))
+    for x in W:
+        if x.attr == 'unlocked' and x.receiver.endswith('.status'):
+            name = x.fn.name
+            ok = name in ('predict', 'restrict') and x.rhs() == 'True' or (x.cls is not None and x.cls.name == '_Status' and name == '__init__')
+            R.check(ok, f'{(x.cls.name + ".") if x.cls else ""}{name} :: {x.target} = {x.rhs()}', x.qual, 'status.unlocked is set only by predict()/restrict() (and initialised False)', f'{x.target} = {x.rhs()}')
